@@ -15,6 +15,9 @@
 (*     the state variable `tiny` ("carries an untracked weight <= 2^-64 of the mass"), so  *)
 (*     the other probabilities are exact up to a relative 2^-60 (the comparison tolerance  *)
 (*     of the harness is 1e-9) and a draw of a tiny event is an enabled Sample.            *)
+(*     Near-normalised inputs (total within 1e-5 of 1 but not 1: integer weights over 10^6  *)
+(*     or 2^17) are instances whose field OPS restricts the chains to the operations whose   *)
+(*     exact arithmetic stays inside 30 bits (marg, mix, norm, expect).                      *)
 (* (O) exact oracle: the laws at the bottom of the module (each written independently of  *)
 (*     the fold that computes the operation) + the expected measure after every step.    *)
 (* (R) reference machine: one action per operation of the code, shaped like the code     *)
@@ -39,8 +42,14 @@ vars == <<iid, n, cur, sc, tiny, hist, l, phase>>
 ZeroR == <<0, 1>>
 OneR  == <<1, 1>>
 RPos(x) == x[1] > 0 /\ x[2] > 0
+\* product with cross-cancellation before multiplying (near-normalised measures have weights over
+\* denominators of 10^6 / 2^17: the plain product of Num.tla would leave 30 bits, the result does not)
+RMulC(x, y) ==
+  IF ~IsFin(x) \/ ~IsFin(y) \/ x[1] = 0 \/ y[1] = 0 THEN RMul(x, y)
+  ELSE LET g1 == GCD(x[1], y[2]) g2 == GCD(y[1], x[2]) IN
+       Norm(Safe((x[1] \div g1) * (y[1] \div g2)), Safe((x[2] \div g2) * (y[2] \div g1)))
 RInv(x) == IF x[1] > 0 THEN <<x[2], x[1]>> ELSE <<-x[2], -x[1]>>
-RDiv(x, y) == RMul(x, RInv(y))
+RDiv(x, y) == RMulC(x, RInv(y))
 
 \* ------------------------------------------------------------------ measures
 Empty == [ev |-> <<>>, p |-> <<>>]
@@ -59,7 +68,7 @@ Acc(D, e, q) ==
 RECURSIVE Fold(_, _, _, _)
 Fold(acc, es, ps, i) == IF i > Len(es) THEN acc ELSE Fold(Acc(acc, es[i], ps[i]), es, ps, i + 1)
 
-Scale(D, a) == [ev |-> D.ev, p |-> TLCEval([i \in 1..Len(D.p) |-> RMul(D.p[i], a)])]
+Scale(D, a) == [ev |-> D.ev, p |-> TLCEval([i \in 1..Len(D.p) |-> RMulC(D.p[i], a)])]
 
 RECURSIVE Pow2(_)
 Pow2(k) == IF k = 0 THEN 1 ELSE 2 * Pow2(k - 1)
@@ -98,27 +107,27 @@ Chain(D, ks) == ChainFold(Empty, D, ks, 1)
 \* condition: keep weight > 0, multiply, divide by the sum
 Cond(D, lk) ==
   LET keep == SelectSeq([i \in 1..Len(D.ev) |-> i], LAMBDA i : RPos(lk[i]))
-      raw  == [j \in 1..Len(keep) |-> RMul(D.p[keep[j]], lk[keep[j]])]
+      raw  == [j \in 1..Len(keep) |-> RMulC(D.p[keep[j]], lk[keep[j]])]
       nrm  == RSumTo(raw, Len(keep))
   IN [ev |-> [j \in 1..Len(keep) |-> D.ev[keep[j]]], p |-> TLCEval([j \in 1..Len(keep) |-> RDiv(raw[j], nrm)])]
-CondMass(D, lk) == RSumTo([i \in 1..Len(D.ev) |-> IF RPos(lk[i]) THEN RMul(D.p[i], lk[i]) ELSE ZeroR], Len(D.ev))
+CondMass(D, lk) == RSumTo([i \in 1..Len(D.ev) |-> IF RPos(lk[i]) THEN RMulC(D.p[i], lk[i]) ELSE ZeroR], Len(D.ev))
 \* joint: {(a, b): pa * pb for a in self for b in other}
 Joint(D, E) ==
   LET m == Len(E.ev) IN
   [ev |-> [t \in 1..(Len(D.ev) * m) |-> <<D.ev[((t - 1) \div m) + 1], E.ev[((t - 1) % m) + 1]>>],
-   p  |-> TLCEval([t \in 1..(Len(D.ev) * m) |-> RMul(D.p[((t - 1) \div m) + 1], E.p[((t - 1) % m) + 1])])]
+   p  |-> TLCEval([t \in 1..(Len(D.ev) * m) |-> RMulC(D.p[((t - 1) \div m) + 1], E.p[((t - 1) % m) + 1])])]
 \* a * self | b * other
 Mix(D, a, E, b) ==
   LET x == Scale(D, a) y == Scale(E, b) IN Fold(Fold(Empty, x.ev, x.p, 1), y.ev, y.p, 1)
 \* conjunction: renormalised product on the common support (the code iterates a set: order is free)
 AndD(D, E) ==
   LET keep == SelectSeq([i \in 1..Len(D.ev) |-> i], LAMBDA i : Has(E.ev, D.ev[i]))
-      raw  == [j \in 1..Len(keep) |-> RMul(D.p[keep[j]], PAt(E, D.ev[keep[j]]))]
+      raw  == [j \in 1..Len(keep) |-> RMulC(D.p[keep[j]], PAt(E, D.ev[keep[j]]))]
       nrm  == RSumTo(raw, Len(keep))
   IN [ev |-> [j \in 1..Len(keep) |-> D.ev[keep[j]]], p |-> TLCEval([j \in 1..Len(keep) |-> RDiv(raw[j], nrm)])]
-AndMass(D, E) == RSumTo([i \in 1..Len(D.ev) |-> RMul(D.p[i], PAt(E, D.ev[i]))], Len(D.ev))
+AndMass(D, E) == RSumTo([i \in 1..Len(D.ev) |-> RMulC(D.p[i], PAt(E, D.ev[i]))], Len(D.ev))
 Normalize(D) == LET t == Total(D) IN [ev |-> D.ev, p |-> TLCEval([i \in 1..Len(D.p) |-> RDiv(D.p[i], t)])]
-Expect(D, g) == RSumTo([i \in 1..Len(D.ev) |-> RMul(<<g[i], 1>>, D.p[i])], Len(D.ev))
+Expect(D, g) == RSumTo([i \in 1..Len(D.ev) |-> RMulC(<<g[i], 1>>, D.p[i])], Len(D.ev))
 
 \* ------------------------------------------------------------------ arguments from the instance menus
 \* functions over the support = tables aligned with the support of the pre-state D
@@ -191,7 +200,7 @@ Step(op, j) ==
 \* pipeline A / MC: every chain of DEPTH operations
 Op ==
   /\ Mode = "mc" /\ phase = "run" /\ n < M.DEPTH
-  /\ \E op \in Ops : \E j \in Menu(M, op) : Step(op, j)
+  /\ \E op \in {o \in Ops : o \in Range(M.OPS)} : \E j \in Menu(M, op) : Step(op, j)   \* OPS: operations of the family
   /\ UNCHANGED <<iid, l, phase>>
 \* MC only: a draw of sample() as an action of the model (bounded: one draw ends the behaviour)
 Sample ==
@@ -255,23 +264,23 @@ LawChain ==
   Is("chain") =>
     LET ks == ArgK(M, Pre, Last.j) IN
     /\ \A y \in Supp(cur) \cup UNION {Supp(ks[i]) : i \in 1..Len(ks)} :
-         PAt(cur, y) = RSumTo([i \in 1..Len(Pre.ev) |-> RMul(Pre.p[i], PAt(ks[i], y))], Len(Pre.ev))
-    /\ Total(cur) = RSumTo([i \in 1..Len(Pre.ev) |-> RMul(Pre.p[i], Total(ks[i]))], Len(Pre.ev))
+         PAt(cur, y) = RSumTo([i \in 1..Len(Pre.ev) |-> RMulC(Pre.p[i], PAt(ks[i], y))], Len(Pre.ev))
+    /\ Total(cur) = RSumTo([i \in 1..Len(Pre.ev) |-> RMulC(Pre.p[i], Total(ks[i]))], Len(Pre.ev))
 \* conditioning on a positive-mass event is Bayes' rule and is normalised
 LawCond ==
   Is("cond") =>
     LET lk == ArgL(M, Pre, Last.j)
         ev == CondMass(Pre, lk) IN
     /\ Total(cur) = OneR
-    /\ \A i \in 1..Len(Pre.ev) : RMul(PAt(cur, Pre.ev[i]), ev) = RMul(Pre.p[i], lk[i])
+    /\ \A i \in 1..Len(Pre.ev) : RMulC(PAt(cur, Pre.ev[i]), ev) = RMulC(Pre.p[i], lk[i])
     /\ Supp(cur) \subseteq Supp(Pre)
 \* joint is the product measure
 LawJoint ==
   Is("joint") =>
     LET E == Opd(M, Last.j) IN
-    /\ \A a \in Supp(Pre) : \A b \in Supp(E) : PAt(cur, <<a, b>>) = RMul(PAt(Pre, a), PAt(E, b))
+    /\ \A a \in Supp(Pre) : \A b \in Supp(E) : PAt(cur, <<a, b>>) = RMulC(PAt(Pre, a), PAt(E, b))
     /\ Len(cur.ev) = Len(Pre.ev) * Len(E.ev)
-    /\ Total(cur) = RMul(Total(Pre), Total(E))
+    /\ Total(cur) = RMulC(Total(Pre), Total(E))
     \* its marginals give the factors back (scaled by the other total)
     /\ Marg(cur, [t \in 1..Len(cur.ev) |-> cur.ev[t][1]]) = Scale(Pre, Total(E))
 \* scaled mixtures add pointwise
@@ -279,29 +288,29 @@ LawMix ==
   Is("mix") =>
     LET E == Opd(M, M.MX[Last.j].o) a == MixA(M, Last.j) b == MixB(M, Last.j) IN
     /\ Supp(cur) = AllEv(Pre, E)
-    /\ \A e \in Supp(cur) : PAt(cur, e) = RAdd(RMul(a, PAt(Pre, e)), RMul(b, PAt(E, e)))
-    /\ Total(cur) = RAdd(RMul(a, Total(Pre)), RMul(b, Total(E)))
+    /\ \A e \in Supp(cur) : PAt(cur, e) = RAdd(RMulC(a, PAt(Pre, e)), RMulC(b, PAt(E, e)))
+    /\ Total(cur) = RAdd(RMulC(a, Total(Pre)), RMulC(b, Total(E)))
 \* conjunction is the renormalised pointwise product on the common support
 LawAnd ==
   Is("and") =>
     LET E == Opd(M, Last.j) z == AndMass(Pre, E) IN
     /\ Supp(cur) = Supp(Pre) \cap Supp(E)
     /\ Total(cur) = OneR
-    /\ \A e \in Supp(cur) : RMul(PAt(cur, e), z) = RMul(PAt(Pre, e), PAt(E, e))
+    /\ \A e \in Supp(cur) : RMulC(PAt(cur, e), z) = RMulC(PAt(Pre, e), PAt(E, e))
 \* normalise divides by the total
 LawNorm ==
   Is("norm") =>
     /\ Total(cur) = OneR
     /\ cur.ev = Pre.ev
-    /\ \A i \in 1..Len(Pre.ev) : RMul(cur.p[i], Total(Pre)) = Pre.p[i]
+    /\ \A i \in 1..Len(Pre.ev) : RMulC(cur.p[i], Total(Pre)) = Pre.p[i]
 \* expectation is the probability-weighted sum (checked through linearity and the constant function)
 LawExpect ==
   Is("expect") =>
     LET g == ArgG(M, Pre, Last.j) IN
     /\ cur = Pre
-    /\ Expect(Pre, [i \in 1..Len(g) |-> 3 * g[i] + 2]) = RAdd(RMul(<<3, 1>>, Last.obs), RMul(<<2, 1>>, Total(Pre)))
-    /\ (\A i \in 1..Len(g) : g[i] = g[1]) => Last.obs = RMul(<<g[1], 1>>, Total(Pre))
-    /\ \A i \in 1..Len(g) : (\A k \in 1..Len(g) : k # i => Pre.p[k] = ZeroR) => Last.obs = RMul(<<g[i], 1>>, Pre.p[i])
+    /\ Expect(Pre, [i \in 1..Len(g) |-> 3 * g[i] + 2]) = RAdd(RMulC(<<3, 1>>, Last.obs), RMulC(<<2, 1>>, Total(Pre)))
+    /\ (\A i \in 1..Len(g) : g[i] = g[1]) => Last.obs = RMulC(<<g[1], 1>>, Total(Pre))
+    /\ \A i \in 1..Len(g) : (\A k \in 1..Len(g) : k # i => Pre.p[k] = ZeroR) => Last.obs = RMulC(<<g[i], 1>>, Pre.p[i])
 \* softmax is normalised and shift-invariant; ratios are 2^delta among the tracked (non-tiny, finite) events;
 \* a -infinity score is probability exactly 0 (and not tiny); a tiny event carries 0 in the abstract measure
 PreTiny == IF n = 1 THEN SoftmaxTiny(M.init.ev, M.init.k, M.init.ni) ELSE hist[n - 1].tiny
@@ -312,7 +321,7 @@ LawSoftmax ==
   /\ ((n = 0 \/ Is("shift")) /\ M.init.kind = "softmax") =>
         /\ \A a \in 1..Len(cur.ev) : \A b \in 1..Len(cur.ev) :
              (M.init.ni[a] = 0 /\ M.init.ni[b] = 0 /\ cur.ev[a] \notin tiny /\ cur.ev[b] \notin tiny /\ sc[a] >= sc[b])
-                => cur.p[a] = RMul(<<Pow2(sc[a] - sc[b]), 1>>, cur.p[b])
+                => cur.p[a] = RMulC(<<Pow2(sc[a] - sc[b]), 1>>, cur.p[b])
         /\ \A a \in 1..Len(cur.ev) : M.init.ni[a] = 1 => (cur.p[a] = ZeroR /\ cur.ev[a] \notin tiny)
         /\ \A a \in 1..Len(cur.ev) : cur.ev[a] \in tiny => (cur.p[a] = ZeroR /\ M.init.ni[a] = 0)
         /\ \E a \in 1..Len(cur.ev) : RPos(cur.p[a])
